@@ -13,13 +13,17 @@
 package inmemory
 
 import (
+	"encoding/hex"
+	"encoding/json"
 	"fmt"
+	"os"
 	"sort"
 	"strings"
 	"testing"
 
 	"github.com/ChainSafe/gossamer/internal/database"
 	vu "github.com/ChainSafe/gossamer/internal/verifutil"
+	"github.com/ChainSafe/gossamer/lib/common"
 	"github.com/ChainSafe/gossamer/pkg/trie"
 )
 
@@ -238,6 +242,33 @@ func c01Generate(r *vu.RNG, n int, emit func(string)) {
 	} {
 		emit(s)
 	}
+	if vu.Thorough() {
+		// exhaustive: every history of at most 3 operations (and a third of those of 4) over six keys
+		// that share nibble prefixes, with a short value, a 33-byte value and delete
+		keys := []string{"-", "10", "1000", "1001", "1f", "0f"}
+		v33 := vu.Hex(make([]byte, 33))
+		var ops []string
+		for _, k := range keys {
+			ops = append(ops, "P:"+k+":aa", "P:"+k+":"+v33, "D:"+k)
+		}
+		var rec func(prefix string, depth int)
+		count := 0
+		rec = func(prefix string, depth int) {
+			if depth > 0 {
+				count++
+				if depth < 4 || count%3 == 0 {
+					emit("root " + []string{"0", "1"}[count%2] + prefix + " H")
+				}
+			}
+			if depth == 4 {
+				return
+			}
+			for _, o := range ops {
+				rec(prefix+" "+o, depth+1)
+			}
+		}
+		rec("", 0)
+	}
 	for i := 0; i < n; i++ {
 		if r.Chance(1, 12) {
 			// layout.Root over an entry list with duplicates
@@ -257,3 +288,70 @@ func c01Generate(r *vu.RNG, n int, emit func(string)) {
 }
 
 func TestVerifC01(t *testing.T) { vu.Run(t, "C01", 1000, c01Generate, c01Run) }
+
+// ---- known-answer anchor (thorough tier): the genesis states shipped in /repo/chain ----
+// input:   genesis <chain> <key>=<value>,...    (the raw top-level genesis state, state version 0)
+// observed: <state root hex>                     (LoadFromMap + Hash)
+// The driver recomputes the root with the spec and hashes the genesis header built from it
+// (parent 0, number 0, empty extrinsics root, empty digest) against the chain's public genesis hash.
+func c01GenesisInput(chain string) (string, error) {
+	raw, err := os.ReadFile("../../../chain/" + chain + "/chain-spec-raw.json")
+	if err != nil {
+		return "", err
+	}
+	var spec struct {
+		Genesis struct {
+			Raw struct {
+				Top map[string]string `json:"top"`
+			} `json:"raw"`
+		} `json:"genesis"`
+	}
+	if err := json.Unmarshal(raw, &spec); err != nil {
+		return "", err
+	}
+	keys := make([]string, 0, len(spec.Genesis.Raw.Top))
+	for k := range spec.Genesis.Raw.Top {
+		keys = append(keys, k)
+	}
+	sort.Strings(keys)
+	parts := make([]string, 0, len(keys))
+	for _, k := range keys {
+		kb := common.MustHexToBytes(k)
+		vb := common.MustHexToBytes(spec.Genesis.Raw.Top[k])
+		parts = append(parts, vu.Hex(kb)+"="+vu.Hex(vb))
+	}
+	return "genesis " + chain + " " + strings.Join(parts, ","), nil
+}
+
+func c01GenesisRun(in string) string {
+	f := strings.SplitN(in, " ", 3)
+	if len(f) != 3 || f[0] != "genesis" {
+		return "err:badinput"
+	}
+	data := map[string]string{}
+	for _, kv := range strings.Split(f[2], ",") {
+		g := strings.Split(kv, "=")
+		data["0x"+hex.EncodeToString(vu.UnHex(g[0]))] = "0x" + hex.EncodeToString(vu.UnHex(g[1]))
+	}
+	tr, err := LoadFromMap(data, trie.V0)
+	if err != nil {
+		return "err"
+	}
+	h, err := tr.Hash()
+	if err != nil {
+		return "err"
+	}
+	return vu.Hex(h[:])
+}
+
+func TestVerifC01Genesis(t *testing.T) {
+	vu.Run(t, "C01", 3, func(_ *vu.RNG, _ int, emit func(string)) {
+		for _, c := range []string{"westend", "paseo", "kusama"} {
+			in, err := c01GenesisInput(c)
+			if err != nil {
+				continue // chain spec not shipped in this tree
+			}
+			emit(in)
+		}
+	}, c01GenesisRun)
+}
